@@ -31,6 +31,7 @@ EXPLANATION = (
     "exactly when no local resolution succeeded; R8.7 the route table holds what was added (RouteTable.add_route appends, on "
     "every path, an entry built from all four arguments - or finds the identical entry present -, rewrites no existing entry, "
     "and is the only writer of `routes`) and Router.process_frame hands a frame to a neighbour directly only on the "
+    "R8.8 the numeric settings this property depends on are never tested by truthiness (`x or default`, `if x:`), because 0 is a legal value for them. "
     "`destination in <that interface>.ip_network` edge (a warm ARP entry does not replace the route table). NOT decided (not applicable to static analysis): end-to-end reachability / delivery success of permitted "
     "exchanges over topologies, ARP behaviour under cold and warm caches, interleavings with interface toggles."
 )
@@ -453,3 +454,5 @@ def check(ctx: Ctx) -> None:
     r8_3(ctx)
     r8_5(ctx)
     r8_7(ctx)
+    from .common import falsy_numeric
+    falsy_numeric(ctx, "R8.8", r"metric|ttl", "route metrics and TTLs")
